@@ -154,7 +154,8 @@ theorem exact_transfer_count_liveness_step_partial (cfg : Cfg) (tbl : List Nat) 
     (ticks : List (Nat × Nat)) (hsorted : (cfg.queues.map (fun x => x.1)).Pairwise (fun a b => a < b))
     (toi : Nat) (f : FileDesc) (hadded : isAdded (run (init cfg tbl) ops) toi = true)
     (hf : getF (run (init cfg tbl) ops).objs toi = some f) (hcar : f.carousel = none)
-    (hnone : (read (run (init cfg tbl) ops) now ticks).2 = Out.none) (hnf : NoFaultOps ops) :
+    (hnone : (read (run (init cfg tbl) ops) now ticks).2 = Out.none)
+    (hnf : QueueFaultFree (run (init cfg tbl) ops) f.prio) :
     (toi ∈ (run (init cfg tbl) ops).queue ∧
       (((run (init cfg tbl) ops).cfg.mode = .full ∧ f.published = false) ∨
        (∃ st, f.info.startTime = some st ∧ now < st) ∨
@@ -174,7 +175,7 @@ theorem exact_transfer_count_liveness_step_partial (cfg : Cfg) (tbl : List Nat) 
     · by_cases hs : ∃ st, f.info.startTime = some st ∧ now < st
       · exact Or.inr (Or.inl hs)
       · refine Or.inr (Or.inr (idle_waiting cfg tbl ops now ticks hsorted hnone toi f hq hf (Or.inr (by unfold gapElapsed; rw [hcar])) ?_ ?_
-          (faultfree_run cfg tbl ops hnf)))
+          hnf))
         · intro hm
           cases hpb : f.published with
           | true => rfl
@@ -195,7 +196,9 @@ theorem exact_transfer_count_liveness_step_partial (cfg : Cfg) (tbl : List Nat) 
     StartTransfer and StopTransfer events of an object alternate, beginning with a Start - #Starts = #Stops, plus one
     exactly when the object is in transfer (`is_transferring`) in the final state.  The lifecycle monitor accepts a
     Stop without packets only for an attempt that the fault schedule of the source marks as failing
-    (`LM.check`, third alternative); `streamfault`/`faultmodel-*` cases are compared with this model. -/
+    (`LM.check`, third alternative); the `faultmodel-*` cases and the random faulty objects are compared with this model
+    on the input domain `FaultDomain` (Lemmas/SchedMono.lean: a first-read failure only for a non-empty object - for
+    an empty one the real attempt succeeds; the theorem itself is about the model and holds for every schedule). -/
 theorem every_start_has_stop (cfg : Cfg) (tbl : List Nat) (ops : List Op) (toi : Nat) :
     (LM.run toi (trace cfg tbl ops)).starts =
       (LM.run toi (trace cfg tbl ops)).stops + (if isTransferring (run (init cfg tbl) ops) toi = true then 1 else 0) := by
@@ -270,7 +273,8 @@ theorem carousel_liveness_step_partial (cfg : Cfg) (tbl : List Nat) (ops : List 
     (ticks : List (Nat × Nat)) (hsorted : (cfg.queues.map (fun x => x.1)).Pairwise (fun a b => a < b))
     (toi : Nat) (f : FileDesc) (hadded : isAdded (run (init cfg tbl) ops) toi = true)
     (hf : getF (run (init cfg tbl) ops).objs toi = some f)
-    (hnone : (read (run (init cfg tbl) ops) now ticks).2 = Out.none) (hnf : NoFaultOps ops) :
+    (hnone : (read (run (init cfg tbl) ops) now ticks).2 = Out.none)
+    (hnf : QueueFaultFree (run (init cfg tbl) ops) f.prio) :
     (toi ∈ (run (init cfg tbl) ops).queue ∧
       (((run (init cfg tbl) ops).cfg.mode = .full ∧ f.published = false) ∨
        (∃ st, f.info.startTime = some st ∧ now < st) ∨
@@ -293,7 +297,7 @@ theorem carousel_liveness_step_partial (cfg : Cfg) (tbl : List Nat) (ops : List 
       · by_cases hgap : f.maxCount ≤ f.info.count ∧ gapElapsed f now = false
         · exact Or.inr (Or.inr (Or.inl hgap))
         · refine Or.inr (Or.inr (Or.inr (idle_waiting cfg tbl ops now ticks hsorted hnone toi f hq hf ?_ ?_ ?_
-            (faultfree_run cfg tbl ops hnf))))
+            hnf)))
           · rcases Nat.lt_or_ge f.info.count f.maxCount with h | h
             · exact Or.inl h
             · right
